@@ -10,6 +10,27 @@ import (
 func TestProp(t *testing.T)   { vt.RunAll(t, 2000) }
 func TestReplay(t *testing.T) { vt.ReplayAll(t) }
 
+// TestKnownFindings re-confirms KnownCalleeStackLeak with a fixed script: a script loaded with an evaluation stack of
+// its own pushes two items and throws, its caller catches: the two items stay counted although nothing holds them.
+func TestKnownFindings(t *testing.T) {
+	if !vt.Known(KnownCalleeStackLeak) {
+		return
+	}
+	callee := []byte{byte(opcode.PUSH1), byte(opcode.PUSH2), byte(opcode.PUSH0), byte(opcode.THROW)}
+	body := append([]byte{byte(opcode.PUSH5), byte(opcode.PUSHDATA1), byte(len(callee))}, callee...)
+	body = append(body, byte(opcode.SYSCALL), byte(LoadSyscallID&0xff), byte(LoadSyscallID>>8&0xff), byte(LoadSyscallID>>16&0xff), byte(LoadSyscallID>>24&0xff), byte(opcode.CLEAR))
+	script := append([]byte{byte(opcode.TRY), byte(3 + len(body) + 2), 0}, body...)
+	script = append(script, byte(opcode.ENDTRY), 5, byte(opcode.CLEAR), byte(opcode.ENDTRY), 2, byte(opcode.PUSH1), byte(opcode.RET))
+	strictKnown = true
+	_, err := Monitor(Case{Kind: "aware", Script: script, GasLimit: 1_0000_0000, BaseFee: defaultBaseFee})
+	strictKnown = false
+	if err == nil {
+		t.Logf("%s: the probe no longer fails", KnownCalleeStackLeak)
+		return
+	}
+	vt.KnownFinding(KnownCalleeStackLeak, err.Error())
+}
+
 // TestDecoderTable is a harness self-check: the independent operand table knows exactly the opcodes the VM knows.
 func TestDecoderTable(t *testing.T) {
 	for i := 0; i < 256; i++ {
